@@ -919,6 +919,61 @@ func c10Methods(o *core.Obs, data []float64) {
 				s.Path()
 			}
 		}},
+		{"ScannerControlPoints", true, false, func(p *canvas.Path) {
+			for s := p.Scanner(); s.Scan(); {
+				switch s.Cmd() {
+				case canvas.QuadToCmd:
+					s.CP1()
+				case canvas.CubeToCmd:
+					s.CP1()
+					s.CP2()
+				case canvas.ArcToCmd:
+					s.Arc()
+				}
+			}
+			for s := p.ReverseScanner(); s.Scan(); {
+				switch s.Cmd() {
+				case canvas.QuadToCmd:
+					s.CP1()
+				case canvas.CubeToCmd:
+					s.CP1()
+					s.CP2()
+				case canvas.ArcToCmd:
+					s.Arc()
+				}
+			}
+			for _, sg := range p.Segments() {
+				switch sg.Cmd {
+				case canvas.QuadToCmd:
+					sg.CP1()
+				case canvas.CubeToCmd:
+					sg.CP1()
+					sg.CP2()
+				case canvas.ArcToCmd:
+					sg.Arc()
+				}
+			}
+		}},
+		{"CopyTo", true, false, func(p *canvas.Path) {
+			for _, q := range []*canvas.Path{{}, canvas.Rectangle(3, 4).Append(canvas.Circle(50)), nil} {
+				if r := p.CopyTo(q); !bitsEqual(r.Data(), p.Data()) {
+					panic("CopyTo returned other data than the receiver's")
+				}
+			}
+		}},
+		{"Gob", true, false, func(p *canvas.Path) {
+			b, err := p.GobEncode()
+			if err != nil {
+				panic(err)
+			}
+			q := &canvas.Path{}
+			if err := q.GobDecode(b); err != nil {
+				panic(err)
+			}
+			if !bitsEqual(q.Data(), p.Data()) {
+				panic("GobDecode(GobEncode(p)) differs from p")
+			}
+		}},
 		{"Bounds", true, false, func(p *canvas.Path) { p.Bounds(); p.FastBounds() }},
 		{"Length", true, false, func(p *canvas.Path) { p.Length() }},
 		{"Flat", true, false, func(p *canvas.Path) { p.Flat() }},
